@@ -10,7 +10,7 @@ CLAIMS = {
          'Reference model written from docstrings/doc/ and behaviour pinned by the unedited suite (relaxations listed in DESIGN 5.3). Sampled, not exhaustive.'),
  'C04': ('exploration', '4/C04', 'seeded histories over a pool of live objects of every kind; shadow snapshot of every object checked after every derive/mutate/external-actor/generator-step/cache event',
          'Needs no model of what operations compute: only who else changes. File changes by another process are never generated.'),
- 'C06': ('exploration', '4/C06', 'seeded histories of stream operations compared in lock-step with a (bits, pos) reference machine; truncation events cut codewords and fixed fields; values are checked against the library\'s own whole-value interpretation of the consumed bits',
+ 'C06': ('exploration', '4/C06', 'seeded histories of stream operations compared in lock-step with a (bits, pos) reference machine; truncation events cut codewords and fixed fields; values are checked against the library\'s own whole-value interpretation of the consumed bits, search results against a search of the model\'s own bit string; options.bytealigned toggled and options.lsb0 switched on for single refused reads as process-global events',
          'Interpretations themselves are trusted (C02/C10/C11 not applicable); msb0 only for exp-Golomb.'),
  'C08': ('exploration', '4/C08', 'object built by a route (text, bytes+window, iterable / generator / one-shot iterator, big- and little-endian bitarray, array, BytesIO, slice/copy, cache hit, file by name/handle with offset/length on a simulated file system with complement slack bytes, incl. 2 MiB files with markers across every power-of-two boundary) and an in-memory twin built from the observed bits receive the same public call; results, exceptions and final contents compared after every event; unlink/append/close/caches as environment events',
          'Little-endian host only. The twin is built from the observed bits; since the third session every source-window route must also build exactly the window of its source (a refusal or other bits is a difference between routes).'),
@@ -18,13 +18,13 @@ CLAIMS = {
          'The cold result is taken as the reference (not independently checked for correctness).'),
  'C12': ('exploration', '4/C12', 'two private replicas: L toggles lsb0 between calls and generator steps, M stays msb0 and receives bit-reversed operands with identical position arguments; results un-mirrored and compared; whole-value interpretations compared across toggles',
          'The oracle is the real msb0 code, as the statement defines the law; split is not in the statement\'s list and is not compared.'),
- 'C14': ('exploration', '4/C14', 'seeded programs of list operations and operators on one Array compared in lock-step with a (python list, item width, trailing bits) model; item encodings come from the library\'s own Bits(<dtype>=value); faulty producers, unfit values, short files as faults',
+ 'C14': ('exploration', '4/C14', 'seeded programs of list operations and operators on one Array compared in lock-step with a (python list, item width, trailing bits) model; item encodings come from the library\'s own Bits(<dtype>=value); faulty producers, unfit values, short files, option toggles (lsb0, bytealigned) and emptied caches as faults; twins of the data under a scaled Dtype object',
          'Encodings of single items are trusted (C02/C11 not applicable).'),
- 'C15': ('exploration', '4/C15', 'scoped: (1) bounded-exhaustive enumeration of (source kind, size, offset, length) windows over every byte/bitarray/file source: inside => exact window, outside => CreationError and no object; (2) seeded histories of rejected writes on live targets must be no-ops',
+ 'C15': ('exploration', '4/C15', 'scoped: (1) bounded-exhaustive enumeration of (source kind, size, offset, length) windows over every byte/bitarray/file source: inside => exact window, outside (beyond the end, negative offset or length) => CreationError and no object; (2) seeded histories of rejected writes on live targets must be no-ops',
          'Scoped to the two non-pure clauses (short source at a read seam; rejected write has no effect). The full dtype x length x value classification of fresh constructions is a pure function and is met only as workload.'),
- 'C17': ('fault_enumeration', '4/C17', 'recording/faulting writer with every write index a crash point (error, torn, closed), chunk-size knob through the guarded hook, real files with real mmap, byte- and wide-item buffers, fresh / positioned / re-used BytesIO for every valid (offset,length) read window, Array.fromfile short/exact/long, round trip through the file system',
+ 'C17': ('fault_enumeration', '4/C17', 'recording/faulting writer with every write index a crash point (error, torn, closed), chunk-size knob through the guarded hook, real files with real mmap, byte- and wide-item buffers, fresh / positioned / re-used BytesIO and every kind of binary file object (read, update, unbuffered, bytes path, unnamed reader) for every valid (offset,length) read window, the source rewritten / the file replaced after the read, Array.fromfile short/exact/long/negative, round trip through the file system',
          'Writers follow the buffered BinaryIO contract. Truncation of a mapped file by another process (SIGBUS) is never injected.'),
- 'C20': ('exploration', '4/C20', 'reflection-driven random programs over every public callable/property of the four classes, Array, Dtype and pack with arguments drawn from the annotated types and adversarial values, under msb0/lsb0, with faulting writers/producers/streams; transition-based invariant monitor (documented exception classes, len==len(bin), 0<=pos<=len, immutables unchanged, options as left)',
+ 'C20': ('exploration', '4/C20', 'reflection-driven random programs over every public callable/property of the four classes, Array, Dtype and pack with arguments drawn from the annotated types and adversarial values, under msb0/lsb0, with faulting writers/producers/streams, suspended generators, copies through copy/deepcopy/pickle; an interpreter that dies is located and reported; transition-based invariant monitor (documented exception classes, len==len(bin), 0<=pos<=len, immutables unchanged, options as left)',
          'Sampled; says nothing about which allowed outcome occurs. MemoryError paths not explored.'),
 }
 NA = {
